@@ -236,6 +236,13 @@ def run(tier):
         b = common.compile_sy(art["sylt"], dict(FILES.get(name, {}), **{"main.sy": "pr: fn *X -> void : external\n" + plain}), extra=["--no-std"]); nat += 1
         if (a[0] == 0) != (b[0] == 0): fnd.report("annotation-changes-acceptance:" + name, "native: annotated exit %d, unannotated exit %d (%s)" % (a[0], b[0], (a[2] + b[2])[-200:].replace("\n", " ")), {"annotated.sy": text, "unannotated.sy": plain})
         elif a[0] == 0 and a[1] != b[1]: fnd.report("annotation-changes-code:" + name, "native: the emitted Lua differs between the annotated and the unannotated spelling", {"annotated.sy": text, "unannotated.sy": plain})
+    # signature layouts: the same function with and without its return annotation, written the way multi-line signatures are written
+    for name, (ann, plain) in SIG_PAIRS.items():
+        a = common.compile_sy(art["sylt"], {"main.sy": "pr: fn *X -> void : external\n" + ann}, extra=["--no-std"])
+        b = common.compile_sy(art["sylt"], {"main.sy": "pr: fn *X -> void : external\n" + plain}, extra=["--no-std"]); nat += 1
+        if a[0] != 0 and b[0] != 0: fnd.undecided("signature layout %s is rejected with and without the annotation: %s" % (name, a[2][-200:]))
+        elif (a[0] == 0) != (b[0] == 0): fnd.report("annotation-changes-acceptance:signature-layout:" + name, "native: annotated exit %d, unannotated exit %d (%s)" % (a[0], b[0], (a[2] + b[2])[-200:].replace("\n", " ")), {"annotated.sy": ann, "unannotated.sy": plain})
+        elif a[1] != b[1]: fnd.report("annotation-changes-code:signature-layout:" + name, "native: the emitted Lua differs between the annotated and the unannotated spelling", {"annotated.sy": ann, "unannotated.sy": plain})
     nat += corpus_unannotated(art, fnd)
     cov = {"states": max(1, tot["paths"]), "transitions": max(1, tot["queries"]), "traces_validated_against_impl": nat, "samples": samples or [{"note": "none"}], "templates": len(jobs), "mir_statements": tot["steps"],
            "functions_encoded": ["name_resolution::resolve", "dependency::initialization_order", "typechecker::solve", "intermediate::compile"],
@@ -246,6 +253,24 @@ def run(tier):
                           "tokenizer/parser run natively on the annotated text; absence is modelled on the AST exactly as the parser represents it (Implied / Resolved(Unknown))"], time.time() - t0, len(fnd.violations))
     print("C08: %d templates, %d annotation subsets, %d queries, %d native pairs, wall %.1fs" % (len(jobs), tot["paths"], tot["queries"], nat, time.time() - t0))
     return rc
+
+
+def _sig(body_first, sig_ann, sig_plain, call="pr(f(3))"):
+    t = "f :: %s\n" + body_first + "    ret x\nend\nstart :: fn do\n    " + call + "\nend\n"
+    return (t % sig_ann, t % sig_plain)
+_BLK = "    do\n        y :: x\n        if y < 0 do\n            ret 0\n        end\n    end\n"
+SIG_PAIRS = {
+    "return_type_then_block_statement": _sig(_BLK, "fn x: int -> int", "fn x: int ->"),
+    "return_type_then_comment_then_block_statement": _sig(_BLK, "fn x: int -> int // the result", "fn x: int -> // the result"),
+    "return_type_then_plain_statement": _sig("    pr(x)\n", "fn x: int -> int", "fn x: int ->"),
+    "return_type_then_blank_line": _sig("\n" + _BLK, "fn x: int -> int", "fn x: int ->"),
+    "return_type_on_the_do_line": _sig("    pr(x)\n", "fn x: int -> int do", "fn x: int -> do"),
+    "tuple_return_type_then_block_statement": _sig(_BLK.replace("ret 0", "ret (0, 0)").replace("y < 0", "y < (0, 0)"), "fn x: (int, int) -> (int, int)", "fn x: (int, int) ->", call="pr(f((1, 2)))"),
+    "function_return_type_then_block_statement": ("mk :: fn k: int -> fn int -> int\n    do\n        pr(k)\n    end\n    ret fn v: int -> int do ret v + k end\nend\nstart :: fn do\n    pr(mk(1)(2))\nend\n",
+                                                  "mk :: fn k: int ->\n    do\n        pr(k)\n    end\n    ret fn v: int -> int do ret v + k end\nend\nstart :: fn do\n    pr(mk(1)(2))\nend\n"),
+    "local_function_return_type_then_block_statement": ("start :: fn do\n    f :: fn x: int -> int\n        do\n            pr(x)\n        end\n        ret x\n    end\n    pr(f(3))\nend\n",
+                                                        "start :: fn do\n    f :: fn x: int ->\n        do\n            pr(x)\n        end\n        ret x\n    end\n    pr(f(3))\nend\n"),
+}
 
 
 def corpus_unannotated(art, fnd):
